@@ -229,4 +229,48 @@ theorem exhaustive_heapCb (base : Nat) : ∀ (docs : List (Nat × Nat)) (h : Hea
       rw [heapPush_not_above natGt hw ⟨sc, base + d⟩ hna]
       exact exhaustive_heapCb base rest h hw hrest
 
+/-! ### segments with deleted documents -/
+
+/-- mirrors: src/collector/sort_key/sort_by_score.rs::collect_segment_top_k — the callback of the
+`alive_bitset` branch: a deleted document returns the old threshold, a live one is pushed -/
+def heapCbA (base : Nat) (alive : Nat → Bool) (h : Heap Nat) (d sc : Nat) : Heap Nat × Nat :=
+  if alive d then heapCb base h d sc else (h, thrNat h)
+
+theorem heapCbA_mono (base : Nat) (alive : Nat → Bool) :
+    MonoCb (heapCbA base alive) (fun h θ => HeapOK h ∧ θ = thrNat h) where
+  step h θ d sc hR hlt := by
+    unfold heapCbA
+    split
+    · exact (heapCb_mono base).step h θ d sc hR hlt
+    · exact ⟨⟨hR.1, rfl⟩, by rw [hR.2]; exact Nat.le_refl _⟩
+
+/-- the total score restricted to the live documents -/
+def maskTot (alive : Nat → Bool) (tot : Nat → Nat) : Nat → Nat := fun d => if alive d then tot d else 0
+
+/-- the exhaustive loop with the deletes-aware callback = the plain one over the live documents -/
+theorem exhRange_heapCbA (base : Nat) (alive : Nat → Bool) (tot : Nat → Nat) : ∀ (n lo : Nat) (h : Heap Nat),
+    exhRange (heapCbA base alive) tot lo n (h, thrNat h)
+      = exhRange (heapCb base) (maskTot alive tot) lo n (h, thrNat h)
+  | 0, _, _ => rfl
+  | n + 1, lo, h => by
+    simp only [exhRange]
+    by_cases ha : alive lo = true
+    · have hm : maskTot alive tot lo = tot lo := by unfold maskTot; rw [if_pos ha]
+      rw [hm]
+      by_cases hc : thrNat h < tot lo
+      · rw [if_pos hc, if_pos hc]
+        have : heapCbA base alive h lo (tot lo) = heapCb base h lo (tot lo) := by unfold heapCbA; rw [if_pos ha]
+        rw [this]
+        exact exhRange_heapCbA base alive tot n (lo + 1) _
+      · rw [if_neg hc, if_neg hc]
+        exact exhRange_heapCbA base alive tot n (lo + 1) h
+    · have hm : maskTot alive tot lo = 0 := by unfold maskTot; rw [if_neg ha]
+      rw [hm, if_neg (Nat.not_lt_zero _)]
+      have : (if thrNat h < tot lo then heapCbA base alive h lo (tot lo) else (h, thrNat h)) = (h, thrNat h) := by
+        split
+        · unfold heapCbA; rw [if_neg ha]
+        · rfl
+      rw [this]
+      exact exhRange_heapCbA base alive tot n (lo + 1) h
+
 end TantivyModel.TopN
